@@ -98,24 +98,29 @@ Proof.
   unfold grant_tokens, mint. destruct w; cbn; rewrite Hl; eauto.
 Qed.
 
+Lemma decay_authorize_core cfg s cl a : decay (next_key s) (st s) (st (fst (authorize_core cfg s cl a))).
+Proof.
+  set (K := next_key s). unfold authorize_core.
+  destruct (negb (scopes_ok cfg cl (az_scopes a))); [apply decay_refl|].
+  destruct (negb (aud_ok cfg (cl_aud cl) (az_aud a))); [apply decay_refl|].
+  destruct (fresh_rid s) as [rid s1] eqn:E1.
+  destruct (fresh_rid_spec _ _ _ E1) as [_ [_ [Hst1 [_ [Hk1 _]]]]].
+  destruct (mint s1 KCode rid) as [k s2] eqn:E2.
+  destruct (mint_spec _ _ _ _ _ E2) as [Hk [_ [Hst2 _]]].
+  assert (P : forall r, decay K (st s) (create_code (st s2) k r)).
+  { intros r. rewrite Hst2, Hst1. apply decay_create_code. unfold K. lia. }
+  destruct (pkce_validate cfg (az_challenge a) (az_method a) cl); cbn [fst fail st set_store log_add]; [apply P|].
+  destruct (String.eqb (az_challenge a) "" && String.eqb (az_method a) ""); cbn [st set_store]; [apply P|].
+  eapply decay_trans; [apply P|]. apply decay_eq_tables; reflexivity.
+Qed.
+
 Theorem decay_step cfg s o : decay (next_key s) (st s) (st (fst (step cfg s o))).
 Proof.
   set (K := next_key s).
   destruct o; cbn [step]; try apply decay_refl;
     try (new_flows_tac s decay_fresh_grant ltac:(apply decay_refl); exact FGfact).
-  - unfold authorize.
-    destruct (clients s (az_client a)) as [cl|]; [|apply decay_refl].
-    destruct (negb (scopes_ok cfg cl (az_scopes a))); [apply decay_refl|].
-    destruct (negb (aud_ok cfg (cl_aud cl) (az_aud a))); [apply decay_refl|].
-    destruct (fresh_rid s) as [rid s1] eqn:E1.
-    destruct (fresh_rid_spec _ _ _ E1) as [_ [_ [Hst1 [_ [Hk1 _]]]]].
-    destruct (mint s1 KCode rid) as [k s2] eqn:E2.
-    destruct (mint_spec _ _ _ _ _ E2) as [Hk [_ [Hst2 _]]].
-    assert (P : forall r, decay K (st s) (create_code (st s2) k r)).
-    { intros r. rewrite Hst2, Hst1. apply decay_create_code. unfold K. lia. }
-    destruct (pkce_validate cfg (az_challenge a) (az_method a) cl); cbn [fst fail st set_store log_add]; [apply P|].
-    destruct (String.eqb (az_challenge a) "" && String.eqb (az_method a) ""); cbn [st set_store]; [apply P|].
-    eapply decay_trans; [apply P|]. apply decay_eq_tables; reflexivity.
+  - unfold authorize. destruct (cf_par_enforced cfg); [apply decay_refl|].
+    destruct (clients s (az_client a)) as [cl|]; [|apply decay_refl]. apply decay_authorize_core.
   - unfold redeem.
     destruct auth as [c|]; [|apply decay_refl].
     destruct (clients s c) as [cl|]; [|apply decay_refl].
@@ -131,8 +136,9 @@ Proof.
       destruct (expired _ _ _ _); [assumption|].
       match goal with |- context [grant_tokens ?s2 ?stored ?w] =>
         pose proof (decay_grant_tokens s2 stored w) as G; destruct (grant_tokens s2 stored w) as [s3 minted] end.
-      cbn [fst] in *. eapply decay_trans; [exact P1|].
-      eapply decay_trans; [apply decay_invalidate_code|]. cbn in G. rewrite N1 in G. exact G.
+      cbn [fst st set_store] in *. eapply decay_trans; [exact P1|].
+      eapply decay_trans; [apply decay_invalidate_code|]. cbn in G. rewrite N1 in G.
+      eapply decay_trans; [exact G|]. apply decay_eq_tables; reflexivity.
     + cbn [fst fail st set_store]. eapply decay_trans; [apply decay_revoke_access|apply decay_revoke_refresh].
   - unfold refresh_flow.
     destruct auth as [c|]; [|apply decay_refl].
@@ -157,48 +163,27 @@ Proof.
     destruct (revoke_lookup s (key_of s tok) h) as [r|]; [|apply decay_refl].
     destruct (negb (Nat.eqb (r_client r) c)); [apply decay_refl|].
     cbn [fst st set_store]. eapply decay_trans; [apply decay_revoke_refresh|apply decay_revoke_access].
-Qed.
-
-Lemma next_key_step cfg s o : next_key s <= next_key (fst (step cfg s o)).
-Proof.
-  destruct o; cbn [step]; try (cbn; lia);
-    try (new_flows_tac s fresh_grant_next_key ltac:(cbn; lia); exact FGfact).
-  - unfold authorize.
-    destruct (clients s (az_client a)) as [cl|]; [|cbn; lia].
-    destruct (negb (scopes_ok cfg cl (az_scopes a))); [cbn; lia|].
-    destruct (negb (aud_ok cfg (cl_aud cl) (az_aud a))); [cbn; lia|].
-    destruct (fresh_rid s) as [rid s1] eqn:E1. destruct (fresh_rid_spec _ _ _ E1) as [_ [_ [_ [_ [Hn1 _]]]]].
-    destruct (mint s1 KCode rid) as [k s2] eqn:E2. destruct (mint_spec _ _ _ _ _ E2) as [_ [_ [_ [_ [Hn2 _]]]]].
-    destruct (pkce_validate cfg (az_challenge a) (az_method a) cl); cbn [fst fail]; [cbn; lia|].
-    destruct (String.eqb (az_challenge a) "" && String.eqb (az_method a) ""); cbn; lia.
-  - pose proof (Inv_state0 (fun _ => None)) as _.
-    unfold redeem.
-    destruct auth as [c|]; [|cbn; lia].
-    destruct (clients s c) as [cl|]; [|cbn; lia].
-    destruct (negb (args_has (cl_grants cl) ["authorization_code"])); [cbn; lia|].
-    destruct (key_of s code) as [k|]; [|cbn; lia].
-    destruct (codes (st s) k) as [[[|] r]|] eqn:Ec; [| cbn; lia |cbn; lia].
-    destruct (p_tampered code); [cbn; lia|].
-    destruct (negb (Nat.eqb (r_client r) c)); [cbn; lia|].
-    destruct (negb (String.eqb (r_redirect r) "") && negb (String.eqb (r_redirect r) redirect)); [cbn; lia|].
-    pose proof (next_key_pkce_token cfg s cl (Some k) verifier verifier_s256) as N1.
-    destruct (pkce_token cfg s cl (Some k) verifier verifier_s256) as [s1 [e|]]; cbn [fst] in *; [cbn; lia|].
-    destruct (expired _ _ _ _); [cbn; lia|].
-    unfold grant_tokens, mint. destruct (can_refresh _ _ _); cbn; lia.
-  - unfold refresh_flow.
-    destruct auth as [c|]; [|cbn; lia].
-    destruct (clients s c) as [cl|]; [|cbn; lia].
-    destruct (negb (args_has (cl_grants cl) ["refresh_token"])); [cbn; lia|].
-    destruct (key_of s tok) as [k|]; cbn [find]; [|cbn; lia].
-    destruct (refresh (st s) k) as [[[|] r]|] eqn:Er; [| cbn; lia |cbn; lia].
-    repeat match goal with |- context [if ?c then _ else _] => destruct c; [cbn; lia|] end.
-    destruct (rotate_refresh (st s) (r_id r)) as [st1 [e|]]; [cbn; lia|].
-    unfold grant_tokens, mint. cbn. lia.
-  - unfold revoke.
-    destruct auth as [c|]; [|cbn; lia].
-    destruct (clients s c); [|cbn; lia].
-    destruct (revoke_lookup s (key_of s tok) h) as [r|]; [|cbn; lia].
-    destruct (negb (Nat.eqb (r_client r) c)); cbn; lia.
+  - match goal with |- context [push cfg s ?x1 ?x2 ?x3 ?x4] => destruct (push_tables cfg s x1 x2 x3 x4) as [Hc [Ha [Hr _]]] end.
+    now apply decay_eq_tables.
+  - unfold authorize_par.
+    destruct (key_of s uri) as [k|]; [|apply decay_refl].
+    destruct (par (st s) k) as [pr|]; [|apply decay_refl].
+    match goal with |- context [if ?c then _ else _] => destruct c; [apply decay_eq_tables; reflexivity|] end.
+    match goal with |- context [authorize_core cfg ?s1 ?cl ?a'] =>
+      eapply (decay_trans _ _ (st s1)); [apply decay_eq_tables; reflexivity|exact (decay_authorize_core cfg s1 cl a')] end.
+  - match goal with |- context [device_authorize cfg s ?x1 ?x2 ?x3 ?x4] => destruct (device_authorize_tables cfg s x1 x2 x3 x4) as [Hc [Ha [Hr _]]] end.
+    now apply decay_eq_tables.
+  - match goal with |- context [decide cfg s ?x1 ?x2 ?x3 ?x4 ?x5] => destruct (decide_tables cfg s x1 x2 x3 x4 x5) as [Hc [Ha [Hr _]]] end.
+    now apply decay_eq_tables.
+  - unfold device_poll.
+    destruct auth as [c|]; [|apply decay_refl]. destruct (clients s c) as [cl|]; [|apply decay_refl].
+    destruct (negb (args_has (cl_grants cl) _)); [apply decay_refl|].
+    destruct (key_of s dev) as [k|]; [|apply decay_refl].
+    destruct (device (st s) k) as [[stt r]|] eqn:Ed; [|apply decay_refl].
+    repeat match goal with |- context [if ?c then fail s _ else _] => destruct c; [apply decay_refl|] end.
+    match goal with |- context [grant_tokens ?s2 ?stored ?w] =>
+      pose proof (decay_grant_tokens s2 stored w) as G; destruct (grant_tokens s2 stored w) as [s3 minted] end.
+    cbn [fst] in *. match type of G with decay _ ?x _ => eapply (decay_trans _ _ x); [apply decay_eq_tables; reflexivity|exact G] end.
 Qed.
 
 Theorem decay_run cfg h : forall s, decay (next_key s) (st s) (st (run cfg s h)).
@@ -220,4 +205,22 @@ Proof.
   - unfold rt_dead. now rewrite E.
   - now left.
   - right. eauto.
+Qed.
+
+(* a used code stays used *)
+Lemma code_inactive_step cfg s o k r :
+  Inv s -> codes (st s) k = Some (false, r) -> exists r', codes (st (fst (step cfg s o))) k = Some (false, r') /\ r_id r' = r_id r.
+Proof.
+  intros I H. pose proof (proj1 (inv_code_fresh s _ _ _ I H)) as Hk.
+  destruct (decay_step cfg s o k Hk) as [_ [_ [E|[b [r0 [E E']]]]]].
+  - exists r. rewrite E. auto.
+  - rewrite H in E. injection E as <- <-. eauto.
+Qed.
+
+Theorem code_inactive_run cfg h : forall s k r,
+  Inv s -> codes (st s) k = Some (false, r) -> exists r', codes (st (run cfg s h)) k = Some (false, r') /\ r_id r' = r_id r.
+Proof.
+  unfold run. induction h as [|o h IH]; intros s k r I H; cbn [fold_left]; [eauto|].
+  destruct (code_inactive_step cfg s o k r I H) as [r' [H' Hr]].
+  destruct (IH _ k r' (Inv_step cfg s o I) H') as [r'' [H'' Hr']]. exists r''. split; [assumption|congruence].
 Qed.
